@@ -46,7 +46,8 @@ Inductive cond :=
 | CStyleIsNot (s : bstyle)        (* d.body_style is not BODY_STYLE_s *)
 | CLenOut (op : cmpop) (k : Z)    (* len(d.out_message._type_info) op k *)
 | COr (a b : cond)                (* short-circuit *)
-| CAnd (a b : cond).
+| CAnd (a b : cond)
+| CNot (a : cond).
 
 (** what a branch of [_cb_sync] assigns to retval *)
 Inductive cb_act := AFirst (* oo[0] *) | ANone (* None *) | AWhole (* oo *).
